@@ -62,6 +62,14 @@ theorem finite_of_range {x : Num} {a b : Dy} (h1 : x.geC a = true) (h2 : x.leC b
   | nan => simp [Num.geC] at h1
   | inf neg => cases neg <;> simp [Num.geC, Num.leC] at h1 h2
 
+theorem finite_of_limits {x : Num} {a b : Option Dy} (ha : a.isSome = true) (hb : b.isSome = true)
+    (h1 : x.geO a = true) (h2 : x.leO b = true) : Num.finite x = true := by
+  cases a with
+  | none => cases ha
+  | some a => cases b with
+    | none => cases hb
+    | some b => exact finite_of_range (a := a) (b := b) h1 h2
+
 theorem toInt_of_finite {x : Num} (h : Num.finite x = true) : x.toInt = .ok (trunc x) := by
   cases x <;> simp_all [Num.finite, Num.toInt, trunc]
 
@@ -87,12 +95,17 @@ theorem findEc_setOne (s : St) (i j : Id) (x : Num) :
       have : a.id = i := by simpa using ha
       simp [this, hij]
 
-theorem setEc_eq_setOne (s : St) (i : Id) (x : Num) (hx : Num.finite x = true) : setEc s i x = .ok (setOne s i x) := by
+theorem setEc_eq_setOne (s : St) (i : Id) (x : Num) (hx : ecKind i ≠ .plain → Num.finite x = true) :
+    setEc s i x = .ok (setOne s i x) := by
   unfold setEc setOne
-  cases ecKind i <;> simp [toInt_of_finite hx]
+  cases hk : ecKind i with
+  | plain => rfl
+  | ect => simp [toInt_of_finite (hx (by rw [hk]; intro h; cases h))]
+  | timeFormat => simp [toInt_of_finite (hx (by rw [hk]; intro h; cases h))]
 
 /-- the condition under which the apply loop cannot raise, phrased so that it survives the loop's own updates -/
-def Storable (s : St) (p : Id × Ecv) : Prop := ∃ ec x, s.findEc p.1 = some ec ∧ p.2 = .num x ∧ Num.finite x = true
+def Storable (s : St) (p : Id × Ecv) : Prop :=
+  ∃ ec x, s.findEc p.1 = some ec ∧ p.2 = .num x ∧ (ecKind p.1 ≠ .plain → Num.finite x = true)
 
 theorem storable_setOne {s : St} {p : Id × Ecv} (i : Id) (x : Num) (h : Storable s p) : Storable (setOne s i x) p := by
   obtain ⟨ec, y, hf, hv, hy⟩ := h
@@ -110,10 +123,10 @@ theorem apply15_ok : ∀ (req : List (Id × Ecv)) (s : St), (∀ p ∈ req, Stor
 /-! ## the pre-check -/
 
 theorem eacAfter_zero {s : St} {ec : Ec} {x : Num} {eac : Nat} (h : eacAfter s ec x eac = 0) :
-    eac = 0 ∧ x.geC ec.min = true ∧ x.leC ec.max = true ∧ ((s.typeCheck && ec.intTyped && x.isFloat) = false) := by
+    eac = 0 ∧ x.geO ec.min = true ∧ x.leO ec.max = true ∧ ((s.typeCheck && ec.intTyped && x.isFloat) = false) := by
   unfold eacAfter at h
-  by_cases h3 : x.leC ec.max = true
-  · by_cases h2 : x.geC ec.min = true
+  by_cases h3 : x.leO ec.max = true
+  · by_cases h2 : x.geO ec.min = true
     · by_cases h1 : (s.typeCheck && ec.intTyped && x.isFloat) = true
       · simp [h1, h2, h3] at h
       · simp only [h1, h2, h3] at h
@@ -122,7 +135,7 @@ theorem eacAfter_zero {s : St} {ec : Ec} {x : Num} {eac : Nat} (h : eacAfter s e
   · simp [h3] at h
 
 theorem pre15_zero (s : St) : ∀ (req : List (Id × Ecv)) (eac d : Nat), pre15 s eac req = .ok d → d = 0 →
-    eac = 0 ∧ ∀ p ∈ req, ∃ ec x, s.findEc p.1 = some ec ∧ p.2 = .num x ∧ x.geC ec.min = true ∧ x.leC ec.max = true
+    eac = 0 ∧ ∀ p ∈ req, ∃ ec x, s.findEc p.1 = some ec ∧ p.2 = .num x ∧ x.geO ec.min = true ∧ x.leO ec.max = true
       ∧ ((s.typeCheck && ec.intTyped && x.isFloat) = false)
   | [], eac, d, h, hd => by simp [pre15] at h; exact ⟨by omega, by simp⟩
   | (i, v) :: rest, eac, d, h, hd => by
@@ -152,7 +165,7 @@ theorem pre15_zero (s : St) : ∀ (req : List (Id × Ecv)) (eac d : Nat), pre15 
 theorem pre15_code (s : St) : ∀ (req : List (Id × Ecv)) (eac d : Nat), pre15 s eac req = .ok d →
     d = eac ∨ (d = 1 ∧ ∃ p ∈ req, s.findEc p.1 = none)
       ∨ (d = 3 ∧ ∃ p ∈ req, ∃ ec x, s.findEc p.1 = some ec ∧ p.2 = .num x ∧
-            (x.geC ec.min = false ∨ x.leC ec.max = false ∨ (s.typeCheck && ec.intTyped && x.isFloat) = true))
+            (x.geO ec.min = false ∨ x.leO ec.max = false ∨ (s.typeCheck && ec.intTyped && x.isFloat) = true))
   | [], eac, d, h => by simp [pre15] at h; exact Or.inl h.symm
   | (i, v) :: rest, eac, d, h => by
     simp only [pre15] at h
@@ -177,8 +190,8 @@ theorem pre15_code (s : St) : ∀ (req : List (Id × Ecv)) (eac d : Nat), pre15 
             · exact Or.inl (ih.trans hz)
             · refine Or.inr (Or.inr ?_)
               unfold eacAfter at ih hz
-              by_cases h3 : x.leC ec.max = true
-              · by_cases h2 : x.geC ec.min = true
+              by_cases h3 : x.leO ec.max = true
+              · by_cases h2 : x.geO ec.min = true
                 · by_cases h1 : (s.typeCheck && ec.intTyped && x.isFloat) = true
                   · simp only [h1, h2, h3] at ih
                     exact ⟨by simpa using ih, (i, x |> Ecv.num), List.mem_cons_self, ec, x, hf, rfl, Or.inr (Or.inr h1)⟩
